@@ -287,6 +287,15 @@ func base64Checks(r *common.Run) {
 	section(r, "Base64 decode", fmt.Sprintf("all texts of length <= %d over %q x the same 4 encodings; Base64Decode / Base64DecodeToString, both forms", textLen, b64Alpha), func() (int64, int64) {
 		return enumTexts(r, "Base64 decode", b64Alpha, 0, textLen, func(s []byte, c *counter) { b64DecodeCase(r, s, c) })
 	})
+	// the same texts behind one and two valid quanta: an error then comes with a non-empty decoded prefix
+	for _, pre := range []string{"QUJD", "QUJDRA__"[:8-2] + "AA"} {
+		pre := pre
+		section(r, "Base64 decode after valid quanta ("+pre+")", fmt.Sprintf("%q followed by every text of length <= %d over %q x 4 encodings", pre, textLen-1, b64Alpha), func() (int64, int64) {
+			return enumTexts(r, "Base64 decode after valid quanta", b64Alpha, 0, textLen-1, func(s []byte, c *counter) {
+				b64DecodeCase(r, append([]byte(pre), s...), c)
+			})
+		})
+	}
 	for _, s := range []string{"AA=\n", "A_-="} {
 		w, we := base64.URLEncoding.DecodeString(s)
 		r.SampleL("Base64 decode", map[string]any{"input": s, "encoding": "URLEncoding", "encoding/base64": fmt.Sprintf("%q, %v", w, we)})
